@@ -774,6 +774,9 @@ func (fox *Router) parseRoute(url string) (uint32, int, error) {
 				}
 				state = stateCatchAll
 				i++
+				if i < len(url) && url[i] != bracketDelim {
+					return 0, -1, fmt.Errorf("%w: missing '{param}' after '*' catch-all delimiter", ErrInvalidRoute)
+				}
 				startParam = i
 				paramCnt++
 			} else {
